@@ -44,6 +44,8 @@ def build(cs):
     f.createDimension('nc', 4)
     dt = cs['dt']
     a, b = fills(dt)
+    if cs.get('zero'):
+        a = 0       # a fill value that is false in a boolean context
     sel = {0: None, 1: a, 2: b}
     vdims = {'scalar': (), '1d': ('x',), '2d': ('t', 'x'),
              '3d': ('t', 'y', 'x')}[cs['rank']]
@@ -58,7 +60,8 @@ def build(cs):
         if dt in 'fd':
             base = (np.arange(n) * 0.1 + 1.7).astype(dt)
             if n > 1:
-                base[1] = -0.0
+                # (-0.0 equals a fill value of 0)
+                base[1] = -0.0 if not cs.get('zero') else 0.5
             if n > 2:
                 base[2] = 1e-40 if dt == 'f' else 5e-320   # denormal
         else:
@@ -156,6 +159,10 @@ def gen_cases(rnd, tier, fillcfgs):
         cases.append({'dt': dt, 'masked': rnd.choice(['no', 'no', 'some']),
                       'fill': rnd.choice(fillcfgs), 'rank': rk, 'unlim': ud,
                       'flavour': fl, 'comp': rnd.choice([0, 1])})
+    # the same with 0 as the first fill value (a third of the masked cases)
+    for c in cases:
+        c['zero'] = bool(c['masked'] != 'no' and c['dt'] != 'c' and
+                         rnd.random() < 0.34)
     for i, c in enumerate(cases):
         c['tid'] = i + 1
     return cases
